@@ -420,6 +420,9 @@ def inline_pure_locals(ref_fn, cur_fn) -> int:
     import copy
 
     ref_locals, _ = _core._scope_info(ref_fn)
+    locals_, fixed = _core._scope_info(cur_fn)
+    fixed = fixed - ref_locals
+    ref_assigns = [r for r in _stmts(ref_fn) if isinstance(r, ast.Assign)]
     stores: dict = {}
     for n in ast.walk(cur_fn):
         if isinstance(n, ast.Name) and isinstance(n.ctx, (ast.Store, ast.Del)):
@@ -438,6 +441,9 @@ def inline_pure_locals(ref_fn, cur_fn) -> int:
         # would see another value), and the bound expression does not mention the name itself
         idx = cur_fn.body.index(st)
         if any(isinstance(n, ast.Name) and n.id == v for n in ast.walk(st.value)):
+            continue
+        # a local the reference has under another name (a renamed local) is not a new local
+        if any(_core._match(r, st, locals_, fixed, {}) for r in ref_assigns):
             continue
         if any(isinstance(n, ast.Name) and n.id == v for earlier in cur_fn.body[:idx] for n in ast.walk(earlier)):
             continue
